@@ -443,7 +443,7 @@ func genC11(t *rapid.T) c11Case {
 	if kind == kClientStream {
 		c.RespN = 1
 	}
-	c.ErrCode = rapid.SampledFrom([]uint32{0, 0, 0, 3, 5, 13, 16}).Draw(t, "errcode")
+	c.ErrCode = rapid.SampledFrom([]uint32{0, 0, 0, 0, 3, 5, 13, 16, 17, 18, 99, 1 << 31}).Draw(t, "errcode")
 	c.NoRecv = rapid.IntRange(0, 4).Draw(t, "norecv") == 0
 	c.JSONTwin = rapid.Bool().Draw(t, "jsontwin")
 	return c
